@@ -219,90 +219,6 @@ func (w *World) regTags() (ISet, []string, error) {
 	return set, fns, nil
 }
 
-// firstEmissions: from block start (inclusive of instruction index i0), the
-// first emission on each path: (tag set, description, position).
-type emission struct {
-	tags ISet
-	desc string
-	pos  string
-}
-
-var emitCallees = map[string]bool{"(*Encoder).writeBT": true, "(*Encoder).writeBytes": true, "(*Encoder).writeBinary": true, "(*Encoder).writeString": true,
-	"(*Encoder).writeInt": true, "(*Encoder).writeLong": true, "(*Encoder).writeDouble": true, "(*Encoder).writeBoolean": true, "(*Encoder).WriteData": true, "(*Encoder).writeRef": true}
-
-func (w *World) firstEmissions(fn *ssa.Function, start *ssa.BasicBlock) []emission {
-	f := w.flow(fn)
-	ets := w.encoderTagSets()
-	var out []emission
-	seen := map[*ssa.BasicBlock]bool{}
-	var walk func(b *ssa.BasicBlock)
-	walk = func(b *ssa.BasicBlock) {
-		if seen[b] {
-			return
-		}
-		seen[b] = true
-		for _, in := range b.Instrs {
-			c, ok := in.(*ssa.Call)
-			if !ok {
-				continue
-			}
-			sc := c.Call.StaticCallee()
-			if sc == nil {
-				continue
-			}
-			name := fnName(sc)
-			if !emitCallees[name] {
-				continue // writeClsDef and helpers are transparent: the class definition belongs to the object production
-			}
-			e := emission{desc: name, pos: w.instrPos(c)}
-			switch name {
-			case "(*Encoder).writeBT":
-				vs := varargBytes(c)
-				if len(vs) > 0 {
-					e.tags, _ = f.ValueAt(vs[0], b)
-					e.desc = "writeBT(" + e.tags.HexString() + ")"
-				}
-			case "(*Encoder).writeBytes":
-				if ac, ok := c.Call.Args[1].(*ssa.Call); ok && ac.Call.StaticCallee() != nil {
-					for cn, cd := range w.codecs() {
-						if cd.Enc == ac.Call.StaticCallee() {
-							e.tags = ets[cn]
-							if cn == "date" || cn == "string" {
-								e.tags = e.tags.Union(single('N'))
-							}
-							e.desc = "writeBytes(" + fnName(cd.Enc) + "(…)): " + e.tags.HexString()
-						}
-					}
-				}
-			case "(*Encoder).writeBinary":
-				e.tags = ets["binary"]
-			case "(*Encoder).writeString":
-				e.tags = ets["string"].Union(single('N'))
-			case "(*Encoder).writeInt":
-				e.tags = ets["int"]
-			case "(*Encoder).writeLong":
-				e.tags = ets["long"]
-			case "(*Encoder).writeDouble":
-				e.tags = ets["double"]
-			case "(*Encoder).writeBoolean":
-				e.tags = ets["bool"]
-			case "(*Encoder).writeRef":
-				e.tags = single(0x51)
-			case "(*Encoder).WriteData":
-				e.tags = mkSet(0, 255)
-				e.desc = "a nested value (WriteData)"
-			}
-			out = append(out, e)
-			return
-		}
-		for _, s := range b.Succs {
-			walk(s)
-		}
-	}
-	walk(start)
-	return out
-}
-
 func rulesC04(w *World, r *Report) {
 	encReg, decReg := w.encRegistrar(), w.decRegistrar()
 	if encReg == nil || decReg == nil {
@@ -321,63 +237,105 @@ func rulesC04(w *World, r *Report) {
 	if reg.Empty() {
 		r.undecided("C04.R1 registration pairing", "Reg", "-", "no registering reader found")
 	}
-	// container writers
+	// container writers: the roots whose exploration meets the registrar
 	var writers []*ssa.Function
-	for _, fn := range w.SrcFuncs() {
-		if fn != encReg && len(callsTo(fn, encReg)) > 0 {
+	for _, n := range []string{"(*Encoder).writeList", "(*Encoder).writeMap", "(*Encoder).writeObject"} {
+		if fn := w.role(n); fn != nil {
 			writers = append(writers, fn)
+		} else {
+			r.undecided("C04.R1 registration pairing", n, "-", "container writer not found")
 		}
 	}
 	r.role("container writers", fnNames(writers))
+	ets := w.encoderTagSets()
 	nW := 0
 	for _, fn := range writers {
 		r.fnSeen(fnName(fn))
-		for _, c := range callsTo(fn, encReg) {
-			// the not-found edge: If on extract #1
-			var notFound *ssa.BasicBlock
-			for _, ref := range *c.Referrers() {
-				ex, ok := ref.(*ssa.Extract)
-				if !ok || ex.Index != 1 {
-					continue
+		wi := w.writerPaths(fn)
+		if wi.truncated {
+			r.undecided("C04.R1 registration pairing", fnName(fn), w.pos(fn.Pos()), "path exploration exceeded its budget")
+			continue
+		}
+		type agg struct {
+			tags ISet
+			pos  string
+			bad  bool
+		}
+		first := map[string]*agg{}
+		sawReg := false
+		regBeforeValue := true
+		for _, p := range wi.paths {
+			ri := -1
+			for i, e := range p.Trace {
+				if e.Kind == "register" {
+					ri = i
+					break
 				}
-				for _, r2 := range *ex.Referrers() {
-					if iff, ok := r2.(*ssa.If); ok {
-						notFound = iff.Block().Succs[1]
-					}
+				if e.Kind == "value" {
+					regBeforeValue = false
 				}
 			}
-			if notFound == nil {
-				r.undecided("C04.R1 registration pairing", fnName(fn)+" · registrar outcome", w.instrPos(c), "the found/not-found branch on the registrar's result was not recognised")
+			if ri < 0 {
 				continue
 			}
-			ems := w.firstEmissions(fn, notFound)
-			if len(ems) == 0 {
-				r.undecided("C04.R1 registration pairing", fnName(fn)+" · first emission", w.instrPos(c), "no emission found after the registration")
-			}
-			byDesc := map[string]emission{}
-			for _, e := range ems {
-				byDesc[e.desc] = e
-			}
-			var descs []string
-			for d := range byDesc {
-				descs = append(descs, d)
-			}
-			sort.Strings(descs)
-			for _, d := range descs {
-				e := byDesc[d]
-				nW++
-				ok := e.tags != nil && !e.tags.Empty() && e.tags.SubsetOf(reg)
-				r.add("C04.R1 registration pairing", fmt.Sprintf("%s · after registration first emits %s", fnName(fn), stripHex(d)), e.pos, ok,
-					fmt.Sprintf("first octets %s; decoder registers on %s", e.tags.HexString(), reg.HexString()))
-			}
-			// R3 (encoder): registration dominates the recursive WriteData calls
-			for _, cs := range w.callSitesIn(fn) {
-				if cs.callee == "(*Encoder).WriteData" {
-					dom := c.Block().Dominates(cs.call.Block())
-					r.add("C04.R3 register before recursing, once", fmt.Sprintf("%s · registration dominates %s", fnName(fn), cs.key()), w.instrPos(cs.call), dom, "the ref-table registration dominates the recursive element write (termination on cycles)")
+			sawReg = true
+			// the next emission after the registration on this path
+			for _, e := range p.Trace[ri+1:] {
+				var tags ISet
+				desc := e.Kind
+				switch {
+				case e.Kind == "loophead" || e.Kind == "lookup" || e.Kind == "classdef" || e.Kind == "register":
+					continue // the class definition belongs to the object production
+				case e.Kind == "ref":
+					tags = nil // the found outcome: a back-reference, nothing registered
+					desc = ""
+				case e.Kind == "octets" || e.Kind == "bytes":
+					if len(e.Args) > 0 && e.Args[0] != nil {
+						tags, _ = w.evalEv(e.Args[0], e.Env)
+					}
+					desc = "octets " + tags.HexString()
+				case strings.HasPrefix(e.Kind, "scalar:"):
+					cn := strings.TrimPrefix(e.Kind, "scalar:")
+					tags = ets[cn]
+					if cn == "date" || cn == "string" {
+						tags = tags.Union(single('N'))
+					}
+					desc = "a " + cn + " value (" + tags.HexString() + ")"
+				case e.Kind == "value":
+					tags = mkSet(0, 255)
+					desc = "a nested value"
+				default:
+					tags = mkSet(0, 255)
 				}
+				if desc != "" {
+					a := first[desc]
+					if a == nil {
+						a = &agg{pos: e.Pos}
+						first[desc] = a
+					}
+					a.tags = a.tags.Union(tags)
+				}
+				break
 			}
 		}
+		if !sawReg {
+			r.undecided("C04.R1 registration pairing", fnName(fn)+" · registration", w.pos(fn.Pos()), "no path of the container writer passes the ref-table registration")
+			continue
+		}
+		var descs []string
+		for d := range first {
+			descs = append(descs, d)
+		}
+		sort.Strings(descs)
+		for _, d := range descs {
+			a := first[d]
+			nW++
+			ok := a.tags != nil && !a.tags.Empty() && a.tags.SubsetOf(reg)
+			r.add("C04.R1 registration pairing", fmt.Sprintf("%s · after registration first emits %s", fnName(fn), d), a.pos, ok,
+				fmt.Sprintf("first octets %s; decoder registers on %s", a.tags.HexString(), reg.HexString()))
+		}
+		// R3 (encoder): on every path the registration precedes the first nested value
+		r.add("C04.R3 register before recursing, once", fmt.Sprintf("%s · registration precedes every nested value", fnName(fn)), w.pos(fn.Pos()), regBeforeValue, "on every explored path the ref-table registration comes before the first recursive element write (termination on cycles)")
 	}
 	r.floor("C04.R1 (writer, first emission) pairs", nW, 4)
 
@@ -1009,39 +967,6 @@ func (w *World) ruleObjectIndexForms(r *Report, rule string) {
 	w.ruleCompactHeaders(r, rule, wo, 0x60, 0x6f)
 	// readers bounds-check the index
 	w.ruleIndexGuards(r, rule, []string{"(*Decoder).ReadLenTagObject", "(*Decoder).readTagObject"})
-}
-
-// ruleCompactHeaders: every writeBT in fn whose octet is `base + byte(X)`
-// with base = lo: under the facts at that block, X ∈ [0, hi-lo] with no lossy
-// conversion (the guard constrains the untruncated value).
-func (w *World) ruleCompactHeaders(r *Report, rule string, fn *ssa.Function, lo, hi int64) {
-	f := w.flow(fn)
-	n := 0
-	for _, cs := range w.callSitesIn(fn) {
-		if cs.callee != "(*Encoder).writeBT" {
-			continue
-		}
-		vs := varargBytes(cs.call)
-		if len(vs) == 0 {
-			continue
-		}
-		t := f.term(vs[0])
-		if t.K == TConst {
-			continue
-		}
-		zero, base, sh, ok := f.tagPlusHigh(vs[0])
-		if !ok || zero != lo || sh != 0 {
-			continue
-		}
-		n++
-		X, fl := f.Eval(base, f.At(cs.call.Block()))
-		// evaluate the octet itself for lossiness
-		_, fl2 := f.Eval(t, f.At(cs.call.Block()))
-		okR := X != nil && X.SubsetOf(mkSet(0, hi-lo)) && !fl.Lossy && !fl2.Lossy && !fl2.Overflow
-		r.add(rule, fmt.Sprintf("%s · compact header %#x+n", fnName(fn), lo), w.instrPos(cs.call), okR,
-			fmt.Sprintf("n = %s ∈ %s under the guards reaching this emission (form carries 0..%d); lossy conversion on the way=%v", base.Key(), X, hi-lo, fl.Lossy || fl2.Lossy))
-	}
-	r.floor(rule+" (compact headers in "+fnName(fn)+")", n, 1)
 }
 
 // ruleIndexGuards: every element access on a per-stream table of the Decoder
